@@ -153,14 +153,20 @@ def run(ctx):
         K = ("div", ("mul", ("leaf", qres), ("leaf", bres)), D)
         bad = None
         classes = set()
-        for p in ix.ok_paths(f):
+        # the pricing function may be split into helpers (invariant, shifted reserve, rounded difference): open them all
+        for p in splice(ix, ix.ok_paths(f), lambda e: e.target.crate == VAMM and "integer::Integer" not in e.target.pretty, rounds=6):
             d = None
             rem_nz = None
             grew = None
             rem_tree = None
             for (at, o, _b, _l) in p.conds:
-                if tag(at) == "op" and payload(at)[0] == "discr" and kids(at)[0] == dparam and o[0] == "variant":
+                at = ix.inline(at)
+                if tag(at) == "op" and payload(at)[0] == "discr" and kids(at)[0] == dparam and isinstance(o, tuple) and o[0] == "variant":
                     d = o[1]
+                if tag(at) == "op" and payload(at)[0] == "is_zero" and o in (True, False) and kids(at)[0] != amount:
+                    # `rem.is_zero()` spells `rem == 0`
+                    rem_nz = (o is False)
+                    rem_tree = N(ix, kids(at)[0])
                 if tag(at) == "op" and payload(at)[0] == "eq" and any(tag(k) == "agg" for k in kids(at)) and dparam in kids(at):
                     v_ = [k for k in kids(at) if tag(k) == "agg"][0]
                     d2 = payload(v_)[1] if o is True else ("RemoveFromAmm" if payload(v_)[1] == "AddToAmm" else "AddToAmm")
